@@ -179,15 +179,31 @@ def build(rng):
     x, y = rng.randint(2, 9), rng.randint(1, 5)
     f, g = rng.choice([0.5, 1.5, 2.25, -3.5]), rng.choice([0.25, 2.0, -1.5])
     b = rng.choice(["True", "False"])
+    # a second function of the same mode whose *return value* is observed by the caller: every
+    # shape of returned value (scalar, 1-tuple, tuples, nested tuple, array, struct, None)
+    ret_ty, ret_expr, reports = rng.choice(RET_SHAPES)
+    body += ("\n\nDECORATOR\ndef rets(x: int, f: float, b: bool) -> " + ret_ty + ":\n    return " + ret_expr + "\n")
     main = ("@guppy\ndef main() -> None:\n    xs = array(1, 2, 3)\n"
-            f"    body({x}, {y}, {f!r}, {g!r}, {b}, xs)\n    result(\"xs_after\", xs)\n")
+            f"    body({x}, {y}, {f!r}, {g!r}, {b}, xs)\n    result(\"xs_after\", xs)\n"
+            f"    rv = rets({x}, {f!r}, {b})\n" + "".join(f'    result("ret{j}", {e})\n' for j, e in enumerate(reports)))
+    stmts.append((f"return {ret_expr}  # -> {ret_ty}", "return:" + ret_ty))
     return body, main, stmts
+
+
+RET_SHAPES = [
+    ("int", "x + 1", ["rv"]), ("tuple[int]", "(x,)", ["rv[0]"]), ("tuple[int, float]", "(x, f)", ["rv[0]", "rv[1]"]),
+    ("tuple[tuple[int, bool], float]", "((x, b), f)", ["rv[0][0]", "rv[0][1]", "rv[1]"]),
+    ("tuple[tuple[int]]", "((x,),)", ["rv[0][0]"]), ("array[int, 2]", "array(x, x + 1)", ["rv"]),
+    ("P", "P(x, f)", ["rv.a", "rv.b"]), ("tuple[P, int]", "(P(x, f), x)", ["rv[0].b", "rv[1]"]),
+    ("None", "None", ["1"]), ("tuple[int, tuple[float, bool]]", "(x, (f, b))", ["rv[0]", "rv[1][0]", "rv[1][1]"]),
+    ("bool", "b", ["rv"]), ("tuple[array[int, 2], int]", "(array(x, 2), x)", ["rv[0]", "rv[1]"]),
+]
 
 
 def run_mode(ctx, body, main, decorator):
     from vf import ctx as C
 
-    text = HELPERS + decorator + "\n" + body + "\n" + main
+    text = HELPERS + decorator + "\n" + body.replace("DECORATOR", decorator) + "\n" + main
     try:
         ld = ctx.load(text, "mode")
         pkg = ld.main.compile()
@@ -243,6 +259,13 @@ def judge(ctx, body, main, stmts):
         if rs.get(tag) != cs.get(tag):
             viols.append({"mech": f"C21:{cell}", "witness": {"statement": src, "regular": rs.get(tag),
                                                             "comptime": cs.get(tag), "body": body, "main": main}})
+    ret_tags = sorted(t_ for t_ in set(rs) | set(cs) if t_.startswith("ret"))
+    if ret_tags:
+        counters["return_values_compared"] = 1
+        if any(rs.get(t_) != cs.get(t_) for t_ in ret_tags):
+            viols.append({"mech": "C21:" + stmts[-1][1], "witness": {"statement": stmts[-1][0],
+                          "regular": {t_: rs.get(t_) for t_ in ret_tags}, "comptime": {t_: cs.get(t_) for t_ in ret_tags},
+                          "body": body, "main": main}})
     if rs.get("xs_after") != cs.get("xs_after"):
         viols.append({"mech": "C21:borrowed-argument-after-call",
                       "witness": {"regular": rs.get("xs_after"), "comptime": cs.get("xs_after"), "body": body,
